@@ -12,12 +12,46 @@ import (
 )
 
 type (
-	Pool   = sync.Pool
 	Map    = sync.Map
 	Locker = sync.Locker
 )
 
 const siteSync = 1 // reserved site id for sync operations
+
+// Pool is a deterministic sync.Pool: a LIFO of the values put back during the
+// current simulation run. (The real pool drops values at GC and keeps them
+// across runs, so hit-or-miss paths would not be a function of the tape.)
+// Outside a run it never retains anything.
+type Pool struct {
+	New   func() any
+	items []any
+	owner *simrt.Sim
+}
+
+func (p *Pool) Get() any {
+	if s := simrt.S; s != nil && p.owner == s && len(p.items) > 0 {
+		v := p.items[len(p.items)-1]
+		p.items = p.items[:len(p.items)-1]
+		return v
+	}
+	if p.New != nil {
+		return p.New()
+	}
+	return nil
+}
+
+func (p *Pool) Put(v any) {
+	s := simrt.S
+	if s == nil || v == nil {
+		return
+	}
+	if p.owner != s {
+		p.owner, p.items = s, nil
+	}
+	if len(p.items) < 64 {
+		p.items = append(p.items, v)
+	}
+}
 
 type waitq []chan struct{}
 
